@@ -6,16 +6,19 @@ import random
 
 def spec(tier, seed):
     jobs, gen_g = [], ""
-    blocks = g.gblock_all()
-    if tier == "quick":
-        rnd = random.Random(seed)
-        fixed = [(16, 16, 0, 0), (17, 9, 16, 8), (1, 1, 0, 0), (9, 5, 8, 0)]
-        blocks = fixed + rnd.sample([b for b in blocks if b not in fixed], 2)
+    blocks = g.gblock_all() if tier == "thorough" else g.gblock_small()[:5]
+    rnd = random.Random(seed)
     for (w, h, px, py) in blocks:
-        gen_g += g.gblock(w, h, px, py)
-        unc = ()
-        jobs.append(Job("h263", g.gblock_name(w, h, px, py), 2400, tagged=True, group="half-sample interpolation", params={"plane": "%dx%d" % (w, h), "block_at": [px, py]},
-                        allow_uncovered=("both components at half-sample positions", "integer vector pointing left of the picture") if (px >= w or py >= h) else ()))
+        sl = g.gblock_slices(w, h, px, py)
+        if tier == "quick":
+            # the slice around the zero vector plus one seeded slice
+            mid = [x for x in sl if x[0] <= 0 <= x[1]]
+            sl = mid + rnd.sample([x for x in sl if x not in mid], 1)
+        for (mx0, mx1, ry) in sl:
+            gen_g += g.gblock(w, h, px, py, mx0, mx1, ry)
+            jobs.append(Job("h263", g.gblock_name(w, h, px, py, mx0), 5400 if (w, h, px, py) in g.gblock_big() else 1800, tagged=True, group="half-sample interpolation",
+                            params={"plane": "%dx%d" % (w, h), "block_at": [px, py], "vector_x_half_samples": [mx0, mx1], "vector_y_half_samples": [-ry, ry]},
+                            allow_uncovered=("a sample inside the block checked",) if (px >= w or py >= h) else ()))
     jobs.append(Job("h263", "c03_gather_wiring", 2400, tagged=True, group="prediction wiring"))
     jobs.append(Job("h263", "c03_lerp_parameters", 300, tagged=False, group="half-sample split"))
     # vectors: the C12 obligations are part of the C03 claim
@@ -28,9 +31,9 @@ def spec(tier, seed):
     return {"jobs": jobs, "generated": generated,
             "functions": ["h263-rs::decoder::cpu::gather::{gather, gather_block, read_sample, lerp}", "HalfPel::{into_lerp_parameters, average_sum_of_mvs}"] + c12.FUNCS,
             "stubs": ["gather_block -> tagging stand-in (marks the block origin with a digest of plane identity and vector) in c03_gather_wiring only; the interpolation harnesses run the real gather_block"],
-            "rule": "stage-wise (DESIGN.md 3/C02-C03): (1) gather_block == half-sample bilinear interpolation with upward rounding and edge clamp for a symbolic vector (-8192..8191 half samples, i.e. far beyond every edge), symbolic reference and target contents, a symbolic checked sample, enumerated plane sizes and block origins (incl. blocks partly or wholly outside the plane); samples outside the block untouched; "
+            "rule": "stage-wise (DESIGN.md 3/C02-C03): (1) gather_block == half-sample bilinear interpolation with upward rounding and edge clamp for symbolic reference and target contents and a symbolic checked sample; vectors enumerated exhaustively over a window that reaches beyond every edge by more than the plane size (small planes) / over -5..5 half samples (planes with full 8x8 blocks and the copy fast path); plane sizes and block origins enumerated (incl. blocks partly or wholly outside the plane); samples outside the block untouched; "
                     "(2) gather(): which vector predicts which block, chroma vector = Table 16 rounding of the sum of the four luma vectors, intra macroblocks not predicted, missing reference => error, for symbolic types and vectors of a two-macroblock picture; (3) all C12 vector obligations.",
-            "bounds": ["plane sizes 1x1, 8x8, 9x5, 16x16, 17x9; block origins on the 8-grid up to one block beyond the plane", "gather wiring: 32x16 picture"],
+            "bounds": ["interpolation harness instances (plane WxH, block origin): " + ", ".join("%dx%d@(%d,%d)" % b for b in blocks) + " - quick runs the small planes only; full 8x8 blocks incl. the copy fast path are thorough-tier", "gather wiring: 32x16 picture"],
             "outside": ["the end-to-end composition bytes -> pixels is an argument over the stage interfaces, not one query", "residual addition is the idct stage (C02)", "picture sizes beyond the enumerated ones",
                         "not-coded / early-end copies: decided at the level 'such macroblocks are predicted with the zero vector from the reference' (decoder-core scenarios + interpolation harness with vector 0)"],
             "assumptions": ["H.263 6.1.2 bilinear interpolation with rounding control 0; Annex D edge extrapolation"]}
